@@ -1697,7 +1697,11 @@ def classify(c, reason):
                     return "once:raise"
                 form = None if isinstance(d[1], str) else d[1][0]
                 if got == "none":
-                    if today == st and now != st:
+                    if today == st and now != st and form is None:
+                        # only a date-less (daily) specification has a day-offset re-parse that C06-F3 could suppress; for a
+                        # weekday / month-day date the day offset makes no difference, so `none` after this week's / this year's
+                        # instant is C06-F2a / F2b whatever the start-up time was (mis-attribution found by `vp check`, seed 1:
+                        # once(01-01 midnight -0.000001s) started exactly at that instant)
                         return "once:regressed:startup-coincidence"
                     if form == "dow" and today <= now:
                         return "once:weekday-same-day-after"
